@@ -72,3 +72,4 @@ end CV.Ans.C06
 
 #print axioms CV.Ans.C06.encodeAll_mirrors
 #print axioms CV.Ans.C06.ans_words_eq_spec
+#print axioms CV.Ans.C06.inv_cfg
